@@ -123,7 +123,7 @@ class SigmaCorrelationCondition:
         if unknown_keys:
             raise sigma_exceptions.SigmaCorrelationConditionError(
                 "Sigma correlation condition contains invalid items: "
-                + ", ".join(sorted(unknown_keys)),
+                + ", ".join(sorted(str(key) for key in unknown_keys)),
                 source=source,
             )
 
